@@ -208,6 +208,11 @@ func (x *Exec) runeToString(v Term, env *Env) Term {
 	x.W.DeclareFun("utf8enc", []Sort{SInt}, so)
 	r := T("(utf8enc "+v.S+")", so)
 	one := x.W.MkSeq(so, Store(ConstArray(ArraySort(SInt, SInt), IntLit(0)), IntLit(0), v), IntLit(0), IntLit(1))
+	x.W.nfresh++
+	qn := fmt.Sprintf("q!%d", x.W.nfresh)
+	qk := T(qn, SInt)
+	hi := Implies(And(Cmp(">=", v, IntLit(128)), Cmp("<=", IntLit(0), qk), Cmp("<", qk, x.W.SeqLen(r))), And(Cmp(">=", x.W.SeqAt(r, qk), IntLit(128)), Cmp("<=", x.W.SeqAt(r, qk), IntLit(255))))
+	x.W.AddFact(env.pc, T("(forall (("+qn+" Int)) (! "+hi.S+" :pattern ("+x.W.SeqAt(r, qk).S+")))", SBool))
 	x.W.AddFact(env.pc, And(Implies(And(Cmp("<=", IntLit(0), v), Cmp("<", v, IntLit(128))), Eq(r, one)),
 		Cmp(">=", x.W.SeqLen(r), IntLit(1)), Cmp("<=", x.W.SeqLen(r), IntLit(4)), Cmp(">=", x.W.SeqOff(r), IntLit(0))))
 	r.GoT = types.Typ[types.String]
